@@ -29,15 +29,7 @@ def getRecs (j : J) (k : String) : Except String (List Rec) := do
   let xs ← (← j.get k).toListOf (J.toPairOf J.toStr J.toStr)
   return xs.map fun (a, b) => (a.toList, b.toList)
 
-/-- the behaviour switches the harness determined by probing the code under test (absent = pinned code) -/
-def getCfg (j : J) : Cfg :=
-  let b (k : String) : Bool := match j.get? k with
-    | some (J.bool true) => true
-    | _ => false
-  { dropPreLabel := b "cfg_drop_pre_label", gdeHashLabel := b "cfg_gde_hash_label" }
-
 def handle (cmd : String) (j : J) : Except String J :=
-  let cfg := getCfg j
   match cmd with
   | "splitlines" => do pure (linesJ (pySplitlines (← getStr j "text")))
   | "iter" => do pure (linesJ (iterSplitlines (← getLines j "chunks")))
@@ -84,14 +76,14 @@ def handle (cmd : String) (j : J) : Except String J :=
               post := (← (← r.get "post").toStr).toList, crlf := ← (← r.get "crlf").toBool, body := body } : FastaText.GRec)
     let t := FastaText.fileRaw gs
     pure (J.obj [("text", strJ t), ("wf", J.bool (FastaText.wfFile gs)), ("records", recsJ (FastaText.records gs)),
-                 ("strict", exJ recsJ (fastaStrict cfg t)), ("faster", recsJ (fastaFaster t)), ("bytes", recsJ (fastaBytes cfg t))])
+                 ("strict", exJ recsJ (fastaStrict t)), ("faster", recsJ (fastaFaster t)), ("bytes", recsJ (fastaBytes t))])
   | "streamed" => do
     -- the composition parser ∘ iter_splitlines (LineBasedParser) on the recorded reads of one file
     let ls := iterSplitlines (← getLines j "chunks")
     match ← (← j.get "parser").toStr with
-    | "fasta_strict" => pure (exJ recsJ (strictParser cfg ['>'] ls))
+    | "fasta_strict" => pure (exJ recsJ (strictParser ['>'] ls))
     | "fasta_faster" => pure (recsJ (fasterParser ['>'] ls))
-    | "gde" => pure (exJ recsJ (strictParser cfg ['%', '#'] ls))
+    | "gde" => pure (exJ recsJ (strictParser ['%', '#'] ls))
     | "paml" => pure (exJ recsJ (pamlParser ls))
     | "phylip" => pure (exJ recsJ (phylipParser ls))
     | p => throw s!"unknown parser {p}"
@@ -107,17 +99,17 @@ def handle (cmd : String) (j : J) : Except String J :=
   | "phylip_format" => do pure (exJ strJ (phylipFormat (← (← j.get "bs").toNat) (← getRecs j "recs")))
   | "strict" => do
     let lc ← getStr j "lc"
-    pure (exJ recsJ (strictParser cfg lc (← getLines j "lines")))
+    pure (exJ recsJ (strictParser lc (← getLines j "lines")))
   | "faster" => do
     let lc ← getStr j "lc"
     pure (recsJ (fasterParser lc (← getLines j "lines")))
-  | "fasta_bytes" => do pure (recsJ (fastaBytes cfg (← getStr j "text")))
+  | "fasta_bytes" => do pure (recsJ (fastaBytes (← getStr j "text")))
   | "fasta_text" => do
     -- all three FASTA parsers on the text of one file
     let t ← getStr j "text"
-    pure (J.obj [("strict", exJ recsJ (fastaStrict cfg t)), ("faster", recsJ (fastaFaster t)),
-                 ("bytes", recsJ (fastaBytes cfg t))])
-  | "gde_text" => do pure (exJ recsJ (gdeStrict cfg (← getStr j "text")))
+    pure (J.obj [("strict", exJ recsJ (fastaStrict t)), ("faster", recsJ (fastaFaster t)),
+                 ("bytes", recsJ (fastaBytes t))])
+  | "gde_text" => do pure (exJ recsJ (gdeStrict (← getStr j "text")))
   | "paml" => do pure (exJ recsJ (pamlParser (← getLines j "lines")))
   | "phylip" => do pure (exJ recsJ (phylipParser (← getLines j "lines")))
   | "strip" => do pure (J.arr [strJ (strip (← getStr j "s")), strJ (bstrip (← getStr j "s")),
